@@ -93,35 +93,41 @@ Section Change.
 
   Definition unwrap (v : val) : val := match v with Iface _ x => x | _ => v end.
 
+  (* the fields of a node that astutil.Apply descends into are rewritten by [r]; a
+     slice-typed field element by element *)
+  Fixpoint rw_fields (r : val -> val) (fs : list val) (fis : list finfo) : list val :=
+    match fs, fis with
+    | x :: fs', fi :: fis' =>
+        (if f_visited fi then
+           match x with
+           | Slice t xs => Slice t (map r xs)
+           | _ => r x
+           end
+         else x) :: rw_fields r fs' fis'
+    | _, _ => fs
+    end.
+
   Fixpoint rw (fuel : nat) (v : val) {struct fuel} : val :=
     match fuel with
     | O => v
     | S f =>
-        let rw_fields := fun (st : ty) (fs : list val) =>
-          (fix go (fs : list val) (fis : list finfo) : list val :=
-             match fs, fis with
-             | x :: fs', fi :: fis' =>
-                 (if f_visited fi then
-                    match x with
-                    | Slice t xs => Slice t (map (rw f) xs)
-                    | _ => rw f x
-                    end
-                  else x) :: go fs' fis'
-             | _, _ => fs
-             end) fs (fields_of st) in
+        let capf := fun (st : ty) (fs : list val) => rw_fields (rw f) fs (fields_of st) in
         match unwrap v with
         | Ptr tp (Struct st fs) =>
             let rebuilt := fun (_ : unit) =>
-              let below := Ptr tp (Struct st (rw_fields st fs)) in
+              let below := Ptr tp (Struct st (capf st fs)) in
               match v with Iface ti _ => Iface ti below | _ => below end in
             match mtch_node mk minus (unwrap v) dinit with
             | Some d =>
-                match inst_node mk assoc_dots (rw f) rw_fields plus d with
+                match inst_node mk assoc_dots (rw f) capf plus d with
                 | Ok give =>
                     (* FileReplacer: the slot keeps its content when the value does not fit *)
                     match v with
                     | Iface ti _ => if assignable (dyn_type give) ti then Iface ti give else rebuilt tt
-                    | _ => if N.eqb (dyn_type give) tp then give else rebuilt tt
+                    | _ => match give with
+                           | Ptr tq _ => if N.eqb tq tp then give else rebuilt tt
+                           | _ => rebuilt tt
+                           end
                     end
                 | Err _ => rebuilt tt
                 end
